@@ -184,6 +184,8 @@ def run(chk, only=None):
         "'line' is what str.splitlines() yields (the documentation does not define it; lexer and renderer use it)",
         "a message about a file that could not be read may only carry position 1:1",
         "scenario replay drives the real glue.process_ir over stub passes (control flow only)",
+        "a compilation must finish within 45 s (quick) / 120 s (thorough) of wall time and within a 3 GiB address space "
+        "(typical: 0.03-1 s, 0.6 GiB); exceeding either is reported as Total.no-termination / exception:MemoryError",
     ]
     with Scratch("c16") as sc:
         # ---------------- design-level model checking ----------------
@@ -231,7 +233,8 @@ def run(chk, only=None):
         cli_events = []
         t0 = time.time()
         if jobs:
-            pool = pipe_worker.Pool(sc.sub("streams"), pipe_tlc.max_par(min(cfg["workers"], max(2, NCPU - 2))), job_timeout=240)
+            pool = pipe_worker.Pool(sc.sub("streams"), pipe_tlc.max_par(min(cfg["workers"], max(2, NCPU - 2))), job_timeout=600,
+                                    compile_timeout=45 if chk.tier == "quick" else 120)
             cli_thread_result = {}
 
             def do_cli():
@@ -323,6 +326,8 @@ def run(chk, only=None):
                     "other_files": sorted(k for k in inp["files"] if k != main)[:50]}
 
         report_verdicts(chk, verdicts, seed, payload_for)
+        if want("fuzz"):
+            pipe_tlc.corruption_selftest(chk, sc, [s for s in streams if not s.endswith("cli.ndjson")])
 
 
 def replay(chk, path):
